@@ -185,10 +185,7 @@ Qed.
 (* ------------------------------------------------------------------ *)
 (* finite tables                                                       *)
 
-Definition ascii_lower (c : N) : N := if (65 <=? c) && (c <=? 90) then c + 32 else c.
-
-(* any lowercase mapping that is the ASCII one below 128 *)
-Definition lower_with (hi : N -> str) (c : N) : str := if c <? 128 then [ascii_lower c] else hi c.
+(* ascii_lower, lower_with: Model/Loader.v *)
 
 Lemma type_roundtrip hi t : type_of_str (lower_with hi) (str_of_type t) = Ok t.
 Proof. destruct t; vm_compute; reflexivity. Qed.
